@@ -174,7 +174,8 @@ def invert_pl_function(x: np.ndarray, y: np.ndarray, t: np.ndarray) -> List[np.n
         solutions of the equation :math:`f(s) = t_j`.
     """
     x = np.asarray(x)
-    y = np.asarray(y)
+    # We work with floats, since differences of small integer types would wrap around
+    y = np.asarray(y, dtype=float)
     t = np.asarray(t)
     t_scalar = t.ndim == 0  # Is input a scalar?
 
